@@ -94,6 +94,28 @@ def find_compares(node, left_pred):
     return out
 
 
+def gen_file(file, name):
+    """the generated file a definition goes to: constants are split by the model that consumes them, so that an anchor
+    that is no longer found only breaks the proofs that depend on it"""
+    if file != "Consts":
+        return file
+    if name.startswith("ch") or name in ("plusGuarded", "hashGuarded"):
+        return "Matcher"
+    if name.startswith("mid"):
+        return "MidConsts"
+    if name.startswith(("topic", "filter", "pub")):
+        return "ValidateConsts"
+    if name in ("rlMaxBytesCmp", "rlMaxBytes", "readLoopMax", "handlerThresholdsOk"):
+        return "ReaderLimits"
+    if name.startswith(("rl", "vbi")):
+        return "BytesConsts"
+    if name.startswith("ka"):
+        return "Keepalive"
+    if name.startswith("backoff"):
+        return "Backoff"
+    return file
+
+
 class Out:
     """collects Lean definitions + report"""
 
@@ -102,10 +124,12 @@ class Out:
         self.report = {"anchors": {}, "missing": [], "sources": {}, "func_hashes": {}}
 
     def add(self, file, name, lean_type, lean_val, where):
+        file = gen_file(file, name)
         self.defs.setdefault(file, []).append(f"/-- {where} -/\ndef {name} : {lean_type} := {lean_val}")
         self.report["anchors"][name] = {"value": lean_val, "where": where}
 
     def missing(self, file, name, why):
+        file = gen_file(file, name)
         self.defs.setdefault(file, []).append(f"-- MISSING anchor {name}: {why}")
         self.report["missing"].append({"name": name, "why": str(why)})
 
